@@ -178,6 +178,12 @@ def main():
             if a != b:
                 print(f"SELFTEST MISMATCH: {name}({x}, {y}) model={a} numpy={b}")
                 bad += 1
+        for casting in ("same_kind", "unsafe", "equiv"):
+            e = f"np.can_cast('{x}', '{y}', casting='{casting}')"
+            a, b = run(e, model), run(e, real)
+            if a != b:
+                print(f"SELFTEST MISMATCH: {e} model={a} numpy={b}")
+                bad += 1
         for op in ("+", "*", "/"):
             e = f"(np.ones(1, dtype='{x}') {op} np.ones(1, dtype='{y}')).dtype"
             a, b = run(e, model), run(e, real)
